@@ -99,7 +99,7 @@ func runC01(c *fw.Ctx) {
 	c.Bound("types", c01Types)
 	c.Bound("formats", []string{"sha1", "sha256"})
 	c.Bound("write_entries", c01FwdEntries)
-	c.Bound("rewrite_pass", "entries set, raw, wtadd: all contents written a second time through another entry point (object already exists)")
+	c.Bound("rewrite_pass", "entries set, raw: all contents written a second time through another entry point (object already exists); wtadd: contents of length <= 2 + look-alikes and pattern sizes added again under a second file name")
 	c.Bound("configuration_entries_contents", "set-excl, goinit, setfmt: contents of length <= 2 + all look-alikes and pattern sizes")
 	c.Bound("read_options", []string{"default", "LargeObjectThreshold=1", "ExclusiveAccess"})
 	c.Bound("read_sources", []string{"repository objects", "objects/info/alternates", "objects/tmp_objdir-incoming-*", "git core.looseCompression=0"})
@@ -480,6 +480,9 @@ func c01Forward(c *fw.Ctx, f, entry string, cs []c01Content, oracle map[string][
 			for k := range cs {
 				if !eligible(k) {
 					continue
+				}
+				if how == "wtadd" && nth == 1 && len(cs[k].data) > 2 && !cs[k].special {
+					continue // duplicate content under a second name: the small contents
 				}
 				if c.Expired() {
 					c.Incomplete("deadline in forward " + f + "/" + label)
